@@ -251,18 +251,23 @@ def build(ctx):
     jobs.append(Job('part.auto_is_divisible', C, 'h_auto_is_divisible', route='LF', defines=['Value=size_t', 'VT_size_t'], target='auto_partition_type::is_divisible', source=PT))
     jobs.append(Job('part.check_for_demand', C, 'h_check_for_demand', route='LF', defines=['Value=size_t', 'VT_size_t'], target='dynamic_grainsize_mode::check_for_demand/align_depth', source=PT))
     jobs.append(Job('rv.ctor', C, 'h_rv_ctor', route='LF', defines=['Value=size_t', 'VT_size_t'], unwind=10, target='range_vector constructor', source=PT))
-    jobs.append(Job('rv.ops', C, 'h_rv_ops', route='LW', unwind=10, defines=['Value=size_t', 'VT_size_t'], timeout=900,
-                    target='range_vector<blocked_range<size_t>,8>: ctor/split_to_fill/pop_back/pop_front/back/front/is_divisible', source=PT))
+    for op, opn in ((1, 'pop_back'), (2, 'pop_front')):
+        jobs.append(Job('rv.' + opn, C, 'h_rv_ops', route='LW', unwind=10, defines=['Value=size_t', 'VT_size_t', 'RV_OP=%d' % op], timeout=600,
+                        target='range_vector<blocked_range<size_t>,8>::%s (+back/front)' % opn, source=PT))
+    for tail in range(8):       # case split over the 8x8 (tail, size) shapes of the circular pool: each case is a complete proof
+        for size in range(1, 9):
+            jobs.append(Job('rv.split_to_fill.t%d.s%d' % (tail, size), C, 'h_rv_ops', route='LW', unwind=10, timeout=600, twin=(tail == 0),
+                            defines=['Value=size_t', 'VT_size_t', 'RV_OP=0', 'RV_TAIL=%d' % tail, 'RV_SIZE=%d' % size],
+                            target='range_vector<blocked_range<size_t>,8>::split_to_fill (+is_divisible, back, splitting ctor), pool shape tail=%d size=%d' % (tail, size), source=PT))
     jobs.append(Job('exec.simple', C, 'h_simple_execute', route='LC', loops=True, nloops=1, defines=['Value=size_t', 'VT_size_t'], target='simple_partition_type::execute', source=PT))
     jobs.append(Job('exec.base_auto', C, 'h_base_execute', route='LC', loops=True, nloops=1, defines=['Value=size_t', 'VT_size_t', 'AUTO_PART'], target='partition_type_base<auto_partition_type>::execute', source=PT))
-    jobs.append(Job('exec.work_balance', C, 'h_work_balance', route='LC', loops=True, defines=['Value=size_t', 'VT_size_t', 'AUTO_PART', 'WB'], timeout=900,
-                    target='dynamic_grainsize_mode::work_balance (+ range_vector, 8-slot pool unwound)', source=PT, flags=['--unwind', '10']))
-    for it, tag in (('int', 'int'), ('long', 'long'), ('unsigned', 'unsigned'), ('size_t', 'size_t')):
+    for it, tag in (('signed char', 'schar'), ('unsigned char', 'uchar')):
         jobs.append(Job('pfor.index.' + tag, C, 'h_pfor', route='LF', defines=['Value=' + it.replace(' ', '_SP_'), 'Index=' + it.replace(' ', '_SP_'), 'IT_' + tag, 'PFOR'], timeout=600, unwind=3,
                         checks=['--bounds-check', '--pointer-check', '--div-by-zero-check'],
                         target='parallel_for_impl<%s> (both overloads) + parallel_for_body_wrapper index arithmetic' % it, source=PF))
-    jobs.append(Job('br2d.dim', C, 'h_br2d', route='LF', defines=['Value=size_t', 'VT_size_t', 'ND'], timeout=900, target='blocked_range2d::do_split dimension choice [IEEE double]', source=BR2))
-    jobs.append(Job('br3d.dim', C, 'h_br3d', route='LF', defines=['Value=size_t', 'VT_size_t', 'ND'], timeout=900, target='blocked_range3d::do_split dimension choice [IEEE double]', source=BR3))
+    for dom, dd in (('below2_50', ['BELOW_2_50']), ('full', [])):
+        jobs.append(Job('br2d.dim.' + dom, C, 'h_br2d', route='LF', defines=['Value=size_t', 'VT_size_t', 'ND'] + dd, timeout=900, target='blocked_range2d::do_split dimension choice [IEEE double], domain: ' + dom, source=BR2))
+        jobs.append(Job('br3d.dim.' + dom, C, 'h_br3d', route='LF', defines=['Value=size_t', 'VT_size_t', 'ND'] + dd, timeout=900, target='blocked_range3d::do_split dimension choice [IEEE double], domain: ' + dom, source=BR3))
     return {
         'jobs': jobs, 'sliced': sliced, 'fired': fired,
         'trusted': ['start_for::offer_work / run_body / spawn (contract stubs: offer_work constructs the right-hand task with the REAL splitting constructors; that a spawned task runs once is C01)',
